@@ -143,6 +143,8 @@ def _eval_constant(prog: Program, model: Model, mod: Any, node: ast.expr) -> Any
     def to_py(v: Any) -> Any:
         if isinstance(v, Const):
             return v.value
+        if isinstance(v, StrV) and all(isinstance(pc, str) for pc in v.pieces):
+            return "".join(v.pieces)            # an f-string over constants
         if isinstance(v, DictV) and v.concrete():
             return {to_py(k): to_py(x) for k, x in v.pairs()}
         if isinstance(v, (TupleV, ListV)) and v.concrete():
